@@ -29,8 +29,30 @@ META = {
             "collections: model collector = real allocated set, Plain holds, Spec.Live = real allocated set.",
     "note": "Closed theorems: T12.1 (both forms), T12.2, T12.3 + refinement lemmas; none is _partial. NOT closed "
             "theorems, carried by the exploration only: (i) that the live count L at collection points is bounded by "
-            "the program's live data and the allocations A between points by 8192 x (allocation of one instruction) — "
-            "this is the first sentence of C12 for concrete programs and is what oracle (b) tests per allocation kind; "
+            "the program's live data — the first half of C12's first sentence for concrete programs, which is what "
+            "oracle (b) tests per allocation kind. The SECOND half, the allocations A between two collection points, is "
+            "now a theorem about the concrete machine (Vm/Machine.lean step over Vm/ConcreteHeap.lean concreteOps; "
+            "Lemmas/PolicyAllocBound.lean: step_cost = the graded form of step_rel over all 16 opcodes, instantiated with "
+            "'exactly j <= k steps Heap.alloc of the erased heap and otherwise edits that leave (capacity, used) alone, "
+            "allocator invariant HInv kept'): instr_alloc_bound - one instruction allocates at most opAlloc op + extra "
+            "cells, opAlloc = CONS 3, CLOSURE 2, ENTER 1, CALL/TCALL 2 (call/cc: continuation + boxed result; apply: boxed "
+            "result; closures / continuations 0), VARARG 3, MOV PUSH JMP JNT RET HALT VPUSH 0 (opAlloc_table, max 3); extra "
+            "= growth of `used` across the generic builtin / eval's compiler / VPUSH the instruction calls, 2*argc for "
+            "VARARG's rest-argument list (vararg_alloc_bound: <= 3 + 2*argc), 0 for every other instruction "
+            "(instr_alloc_bound_core: NonExt => used' <= used + opAlloc op <= used + 3); slice_alloc_bound - n <= 8192 "
+            "instructions with no collection in between perform exactly j <= 8192*3 + E policy operations `.alloc`, E = "
+            "the sum of extra over the slice (the cells allocated by the builtins called in it); "
+            "machine_slice_capacity_bounded - T12.3 (heap_run_capacity_bounded) with A := 8192*3 + E for a slice followed "
+            "by a collection point and any continuation of the heap model paced by that A and L; session_capacity_bounded - "
+            "any number of blocks 'j allocations then a collection point' with j <= A and live <= L is paced (paced_blocks), "
+            "so the bound is independent of the number of slices. Hypotheses: HInv of the "
+            "initial heap (a consequence of GoodI) and the law ExtAllocOnly on the unmodelled operations (generic "
+            "builtins, eval's compiler, VPUSH change (capacity, used) only through Heap::alloc and keep HInv) - "
+            "satisfiable by failingExt and by allocExt whose builtins do allocate (allocExt_allocOnly); non-vacuity: a "
+            "CONS step on a 4-cell heap allocating 2 <= 3 cells (hCons_inv, kernel-evaluated), a HALT slice. What is still "
+            "NOT a theorem: that a slice of the REAL run loop is at most 8192 instructions (run.rs cycle counter; tied by "
+            "the policy-trace stream), E for concrete builtins (each builtin's allocation is proportional to its "
+            "arguments: oracle (b)), and the bound on L; "
             "(ii) [upgraded to theorems about the concrete machine of Vm/ConcreteHeap.lean: "
             "no_floating_garbage_of_goodI / no_floating_garbage_machine / forced_gc_no_floating_garbage_machine - "
             "started in a state satisfying the invariant GoodI, in EVERY reachable state (any number of instructions, "
@@ -75,7 +97,9 @@ THEOREMS = ["Marwood.Proofs.C12." + t for t in [
     "allocated_after_gc_iff_live_after", "alloc_refines_policy_wf", "used_after_gc_eq_live_count",
     "heap_run_capacity_bounded", "pre_h4",
     "no_floating_garbage_of_goodI", "no_floating_garbage_machine", "forced_gc_no_floating_garbage_machine",
-    "sHalt_codePlain", "failingExt_codePlain"]]
+    "sHalt_codePlain", "failingExt_codePlain",
+    "instr_alloc_bound", "instr_alloc_bound_core", "opAlloc_table", "vararg_alloc_bound", "slice_alloc_bound",
+    "machine_slice_capacity_bounded", "session_capacity_bounded", "failingExt_allocOnly", "allocExt_allocOnly", "hCons_inv"]]
 
 CHEAP = ["pairs", "vectors", "strings", "symbols", "bignums", "sliced"]
 MEDIUM = ["closures", "continuations"]
@@ -116,5 +140,7 @@ def run(ctx):
              "templates: real allocated set after = model collector = Spec.Live, kind discipline Plain holds. "
              "Non-trivial = a trace with a collection / a bound with L>0 / a snapshot whose collection kept something; "
              "distinct by request text",
-        trusted_extra=["first sentence of C12 for concrete programs (L bounded by live data, A bounded per 8192 cycles) is "
-                       "carried by the '#oracle capacity/live/held-bytes' exploration, not by a closed theorem"])
+        trusted_extra=["first sentence of C12 for concrete programs: L bounded by live data is carried by the '#oracle "
+                       "capacity/live/held-bytes' exploration, not by a closed theorem; A per slice of <= 8192 instructions "
+                       "is a theorem about the machine model (slice_alloc_bound: <= 8192*3 + cells allocated by the "
+                       "builtins called) under the law ExtAllocOnly on the unmodelled operations"])
